@@ -174,7 +174,7 @@ def run(case):
     out = Outcome()
     fs = SimFS()
     env.restore_registry()
-    env.bf3file.open = fs.open
+    env.use_fs(fs)
     spec = case["bf2"]
     try:
         items = bf2gen.render_items(spec)
